@@ -286,6 +286,7 @@ func (w *World) mapUpdate(higher moss.Snapshot) (moss.Snapshot, error) {
 
 // open creates (or re-opens) collection and store and runs all threads to the initial quiescent state.
 func (w *World) open() {
+	w.s.SleepFree = false // closeAll lets timers fire freely; a reopened collection is on the timer budget again
 	before := w.s.NumThreads()
 	var openErr error
 	t := w.s.Spawn("open", func() {
